@@ -67,8 +67,31 @@ ClashSet == {Shared(Pipe(gi, g, <<WithLocals(b, l, fr)>>)) : gi \in BOOLEAN, g \
 \* (k together with k_0 for the same step is not generated: "k is replaced by k_0 wherever it is encountered" would make
 \*  the later one win, PROJ itself prefers k_0 whatever the order; the documentation does not decide)
 
-SemCasesQ == SX!SetToSeq(SemQ \cup ClashSet)
-SemCasesT == SX!SetToSeq(SemT \cup ClashSet)
+\* ---- an ellps at pipeline level AND a step that gives a and rf itself: the step's own ellipsoid wins ("pipeline globals
+\*      reach every step without overriding step-local values", "a and rf become the equivalent ellipsoid"; PROJ itself
+\*      lets a and rf override ellps).  Not generated, because neither the statement nor the documentation of parse_proj
+\*      decides them: ellps with only one of a / rf, ellps AND a / rf in the same step, a / rf at pipeline level against
+\*      a step's own ellps, +R, +b, +f, +es
+GE == T("ellps", "intl")
+OwnEllps == {<<LA, LRf>>, <<LRf, LA>>, <<LK, LA, LRf>>}
+EllpsClashSet == {Shared(Pipe(gi, g, <<WithLocals(b, l, fr)>>)) : gi \in BOOLEAN, g \in {<<GE>>, <<GK, GE>>}, l \in OwnEllps,
+                      b \in {S("utm", <<L("zone", 32)>>), S("tmerc", <<L("lon_0", 9)>>)}, fr \in BOOLEAN}
+       \cup {Shared(Pipe(gi, <<GE>>, <<WithLocals(S("tmerc", <<L("lon_0", 9)>>), l, FALSE), Inv(S("utm", <<L("zone", 32)>>))>>)) :
+                 gi \in BOOLEAN, l \in OwnEllps}
+
+SemCasesQ == SX!SetToSeq(SemQ \cup ClashSet \cup EllpsClashSet)
+SemCasesT == SX!SetToSeq(SemT \cup ClashSet \cup EllpsClashSet)
+
+\* ---- text that is not PROJ syntax: Geodesy definitions that merely contain the word "proj" -- in the comment (every
+\*      case, ProjSyntax!PassBase), in a macro name, in a value; one step (several steps without '|': written with < >)
+Pass(def) == [p |-> [pipe |-> FALSE, ginv |-> FALSE, globals |-> <<>>, steps |-> def], fam |-> "pass", refuse |-> ""]
+Res == [n \in {"myproj:foo"} |-> <<S("t_add", <<L("e", 1), [k |-> "c", v |-> [f |-> "ref", n |-> "c"]]>>)>>]
+PassCases == <<
+    Pass(<<A>>), Pass(<<Inv(C)>>), Pass(<<S("helmert", <<L("x", 1), L("y", 2)>>)>>),
+    Pass(<<S("myproj:foo", <<L("c", 3)>>)>>), Pass(<<Inv(S("myproj:foo", <<L("c", 3)>>))>>),
+    Pass(<<S("t_gamut", <<L("rnat", 1), L("rreal", 1), T("text", "reproj")>>)>>),
+    Pass(<<A, Oi(B)>>), Pass(<<Of(S("myproj:foo", <<L("c", 3)>>)), Oi(C)>>)
+>>
 
 \* layout cases: few definitions, many layouts
 LayCases == <<
@@ -89,12 +112,13 @@ LayCases == <<
     Shared(Pipe(FALSE, <<>>, <<UnitC, Lcc, Inv(Laea), Merc>>)),
     Shared(Pipe(FALSE, <<GA, GRf>>, <<S("utm", <<L("zone", 32), LA, LRf>>), Inv(Utm(33))>>)),
     Shared(Pipe(TRUE, <<GK, GA, GRf>>, <<S("tmerc", <<LK, L("lon_0", 9), LRf>>), S("t_gamut", <<L("rnat", 1), L("rreal", 1), LK>>)>>)),
+    Shared(Pipe(FALSE, <<GE>>, <<S("tmerc", <<L("lon_0", 9), GA, GRf>>), Inv(Utm(33))>>)),
     Refuse(Pipe(FALSE, <<>>, <<Cart("intl"), S("pipeline", <<>>), Helm>>), "nested"),
     Refuse(Pipe(FALSE, <<>>, <<S("pipeline", <<>>)>>), "nested"),
     Refuse(Pipe(FALSE, <<>>, <<S("noop", <<T("init", "another_pipeline")>>), Utm(32)>>), "init"),
     Refuse(Pipe(TRUE, <<T("init", "epsg:4326")>>, <<Utm(32)>>), "init"),
     Refuse(Single(S("utm", <<T("init", "epsg:25832"), L("zone", 32)>>)), "init")
->>
+>> \o PassCases
 
 \* tuple 1 passes t_failodd, tuple 2 (odd first element) fails it
 D2 == << <<2 * 1024, 12 * 1024, 13 * 1024, 14 * 1024>>, <<21 * 1024, 22 * 1024, 23 * 1024, 24 * 1024>> >>
